@@ -15,6 +15,17 @@ import (
 type Rng struct{ s uint64 }
 
 func NewRng(seed uint64) *Rng { return &Rng{s: seed*0x9E3779B97F4A7C15 + 0x1234567} }
+
+// NewStreamRng seeds the generator of one history. The state of NewRng(k+1) is the state of NewRng(k) one step later
+// (the seed is multiplied by the increment), so histories with neighbouring seeds drew from shifted copies of one stream
+// and came out nearly alike; here the seed goes through the output function first. NewRng itself is kept for the genesis
+// configurations, which committed replays name by history number.
+func NewStreamRng(seed uint64) *Rng {
+	z := seed + 0x9E3779B97F4A7C15
+	z = (z ^ (z >> 30)) * 0xBF58476D1CE4E5B9
+	z = (z ^ (z >> 27)) * 0x94D049BB133111EB
+	return &Rng{s: z ^ (z >> 31)}
+}
 func (r *Rng) U64() uint64 {
 	r.s += 0x9E3779B97F4A7C15
 	z := r.s
@@ -53,7 +64,7 @@ type Gen struct {
 }
 
 func NewGen(w *World, seed uint64, profile string) *Gen {
-	g := &Gen{W: w, R: NewRng(seed), Profile: profile, Malformed: 20, seed0: seed}
+	g := &Gen{W: w, R: NewStreamRng(seed), Profile: profile, Malformed: 20, seed0: seed}
 	switch profile {
 	case "main", "staking", "auth":
 		g.SimPct = 8
@@ -1355,7 +1366,10 @@ func (g *Gen) authTx() Op {
 	case 2: // sponsor: somebody else's payment DID
 		owner := g.Owners[r.Intn(len(g.Owners))]
 		d := g.newDataId()
-		return Op{K: "store", Creator: adv, Provider: honest + 1, Signer: owner + 1, Owner: owner + 1, PayDid: g.Owners[r.Intn(len(g.Owners))] + 1, Duration: 3600, Replica: 1,
+		payer := g.Owners[r.Intn(len(g.Owners))]
+		// … declaring an honest gateway, the payer's own account, or nothing as the provider it acts for
+		prov := []int{honest + 1, payer + 1, honest + 1, 0}[r.Intn(4)]
+		return Op{K: "store", Creator: adv, Provider: prov, Signer: owner + 1, Owner: owner + 1, PayDid: payer + 1, Duration: 3600, Replica: 1,
 			Timeout: 50, Alias: fmt.Sprintf("alias%d", g.dataSeq), DataId: d, CommitId: d, Size: 1000, Operation: 1}
 	case 3: // update of a victim's model signed by the adversary's DID with a commit id embedding the data id
 		if m == nil {
